@@ -37,6 +37,23 @@ pub fn case(ctx: &mut CaseCtx) -> CaseOut {
     let sc = ctx.scenario(|r| {
         let mut s = gen_lifecycle(r, &OPTS);
         s.engine.keep_processes = true;
+        // one family answers inside the message handler and ends every interrupt the same way (abort / skip / error):
+        // the ending is processed while tasks that the engine has just scheduled still wait in the queue
+        if r.below(8) == 0 {
+            let action = r.pick(&["abort", "abort", "skip", "error"]).to_string();
+            for list in s.client.reactions.values_mut() {
+                if let Some(first) = list.first_mut() {
+                    let mut o = first.options.clone();
+                    if action == "error" {
+                        o.insert("ecode".into(), json!("e1"));
+                        o.insert("message".into(), json!("boom"));
+                    }
+                    *first = Reaction { action: action.clone(), options: o, repeat: 0 };
+                }
+            }
+            s.client.mode = "inline".into();
+            s.adversary = None;
+        }
         s
     });
     let rec = ctx.run(&sc);
